@@ -301,6 +301,9 @@ func runCheck(id, tier string, updateBaseline bool, only string) int {
 		if o.Result.Status == "unsat" {
 			nDis++
 			bySolver[strings.TrimSuffix(o.Result.Solver, " (cached)")]++
+		} else if o.Result.Status == "error" {
+			// the solvers rejected the query: a generator bug, not a verdict about the code
+			res.machineErr = append(res.machineErr, "solver error on "+o.Name+": "+firstLines(o.Result.Raw, 2))
 		} else {
 			failObl(o.Name, o, o.Result.Status)
 		}
